@@ -58,17 +58,27 @@ class Parameter:
             self.upper = upper
             self.lower = lower
             self.width = upper - lower
-            self.proposal = self.boundary_proposal
             self.bounded = True
+            self._select_proposal()
         else:
             warn("Upper limit must be greater than lower limit")
 
     def remove_boundaries(self):
-        self.proposal = self.standard_proposal
         self.bounded = False
         self.upper = 0.0
         self.lower = 0.0
         self.width = 0.0
+        self._select_proposal()
+
+    def _select_proposal(self):
+        # every limit which is switched on stays in force, whatever the order
+        # in which the limits were set or removed
+        if self.bounded:
+            self.proposal = self.boundary_proposal
+        elif self._non_negative:
+            self.proposal = self.abs_proposal
+        else:
+            self.proposal = self.standard_proposal
 
     @property
     def non_negative(self):
@@ -78,10 +88,7 @@ class Parameter:
     def non_negative(self, value):
         if type(value) is bool:
             self._non_negative = value
-            if self._non_negative is True:
-                self.proposal = self.abs_proposal
-            else:
-                self.proposal = self.standard_proposal
+            self._select_proposal()
         else:
             warn("non_negative must have a boolean value")
 
@@ -113,13 +120,16 @@ class Parameter:
         prop = self.rng.normal(loc=self.samples[-1], scale=self.sigma)
 
         # we now pass the proposal through a 'reflecting' function where
-        # proposals falling outside the boundary are reflected inside
-        d = prop - self.lower
-        n = (d // self.width) % 2
+        # proposals falling outside the boundary are reflected inside. If the
+        # parameter is also set as non-negative, the lower boundary is at least zero.
+        lower = max(self.lower, 0.0) if self._non_negative else self.lower
+        width = self.upper - lower
+        d = prop - lower
+        n = (d // width) % 2
         if n == 0:
-            return self.lower + d % self.width
+            return lower + d % width
         else:
-            return self.upper - d % self.width
+            return self.upper - d % width
 
     def submit_accept_prob(self, p: float):
         self.num += 1
@@ -208,12 +218,7 @@ class Parameter:
         param.lower = float(dictionary[i + "lower"])
         param.width = float(dictionary[i + "width"])
 
-        if param.bounded:
-            param.proposal = param.boundary_proposal
-        elif param._non_negative:
-            param.proposal = param.abs_proposal
-        else:
-            param.proposal = param.standard_proposal
+        param._select_proposal()
         return param
 
 
